@@ -229,6 +229,13 @@ class Flow:
         self.marker += 1
         return say(num(self.marker))
 
+    TICK = ('simple', 'tick')
+
+    def tick(self, e):
+        """a condition with a side effect: `tick taking e` prints a marker and yields e"""
+        self.uses_tick = True
+        return ('call', self.TICK, [e])
+
     def atom(self, d=2):
         rng = self.rng
         r = rng.random()
@@ -242,8 +249,14 @@ class Flow:
         """left-associative chain of and/or/nor over atoms (there are no parentheses)"""
         rng = self.rng
         e = self.atom()
-        for _ in range(rng.choice([0, 0, 0, 1, 1, 2])):
-            e = bin_(rng.choice(['and', 'or', 'nor']), e, self.atom())
+        k = rng.choice([0, 0, 0, 1, 1, 2])
+        for i in range(k):
+            a = self.atom()
+            if i == k - 1 and rng.random() < 0.25 and a[0] != 'un':
+                a = self.tick(a)          # only as the LAST operand: a call's argument list would swallow `and x`
+            e = bin_(rng.choice(['and', 'or', 'nor']), e, a)
+        if k == 0 and rng.random() < 0.2 and e[0] != 'un':
+            e = self.tick(e)
         return e
 
     def stmts(self, depth, loops, n=None):
@@ -262,13 +275,12 @@ class Flow:
                 k = rng.randint(0, 3)
                 out.append(put(num(0), c))
                 body = [('inc', c, 1)] + self.stmts(depth - 1, loops + 1, rng.randint(0, 4))
+                lhs_ = self.tick(v(c)) if rng.random() < 0.25 else v(c)     # `tick taking c is less than k`
                 if rng.random() < 0.5:
-                    cond = ('bin', 'less', v(c), [num(k)], 'is')
-                    if rng.random() < 0.3:
-                        cond = bin_('and', cond, self.cond(1)) if False else cond
+                    cond = ('bin', 'less', lhs_, [num(k)], 'is')
                     out.append(('while', cond, body))
                 else:
-                    cond = ('bin', 'greatereq', v(c), [num(k)], 'is')
+                    cond = ('bin', 'greatereq', lhs_, [num(k)], 'is')
                     out.append(('until', cond, body))
             elif r < 0.6:
                 out.append(put(rng.choice(self.CONDS), rng.choice(self.flags)))
@@ -280,7 +292,10 @@ class Flow:
 
     def program(self, depth=3):
         init = [put(self.rng.choice(self.CONDS), f) for f in self.flags]
-        return [init + self.stmts(depth, 0, self.rng.randint(2, 5))]
+        body = self.stmts(depth, 0, self.rng.randint(2, 5))
+        if getattr(self, 'uses_tick', False):
+            init = [('func', self.TICK, [sv('pp')], [say(num(99)), ('return', v(sv('pp')), False, False)])] + init
+        return [init + body]
 
 
 def alpha(n):
@@ -328,6 +343,10 @@ def ref_flow(prog, limit=100000):
             return env[e[1][1]]
         if t == 'un':
             return not ref_truthy(ev(e[2]))
+        if t == 'call':
+            x = ev(e[2][0])
+            out.append(99)
+            return x
         if t == 'bin':
             op = e[1]
             a = ev(e[2])
@@ -355,6 +374,8 @@ def ref_flow(prog, limit=100000):
         if steps[0] > limit:
             raise RuntimeError('limit')
         t = s[0]
+        if t == 'func':
+            return 'normal'
         if t == 'output':
             out.append(int(s[1][1][1]))
             return 'normal'
